@@ -453,6 +453,12 @@ func roots(v ssa.Value, pass passFn) []ssa.Value {
 						return
 					}
 				}
+				switch x.X.(type) {
+				case *ssa.Extract, *ssa.Call, *ssa.Parameter, *ssa.Phi:
+					// dereference of a pointer value: derives from the pointer
+					walk(x.X, d+1)
+					return
+				}
 			}
 			out = append(out, v)
 		case *ssa.Call:
@@ -536,3 +542,67 @@ func isNamed(t types.Type, pkgPath, name string) bool {
 	}
 	return n.Obj().Pkg().Path() == pkgPath && n.Obj().Name() == name
 }
+
+// rootBase walks from a field address / field read / load chain down to the value it is based on:
+// &x.a.b, x.a.b, *(&x.a) … all yield x.
+func rootBase(v ssa.Value) ssa.Value {
+	for i := 0; i < 20; i++ {
+		switch x := v.(type) {
+		case *ssa.FieldAddr:
+			v = x.X
+		case *ssa.Field:
+			v = x.X
+		case *ssa.UnOp:
+			if x.Op != token.MUL {
+				return v
+			}
+			switch x.X.(type) {
+			case *ssa.FieldAddr, *ssa.Field:
+				v = x.X
+			default:
+				if s := singleStore(x.X); s != nil {
+					v = s
+				} else {
+					return v
+				}
+			}
+		default:
+			return v
+		}
+	}
+	return v
+}
+
+// basedOnType: walking the field/load chain below v, is some intermediate value of the named type?
+func basedOnType(v ssa.Value, pkgPath, name string) bool {
+	for i := 0; i < 20 && v != nil; i++ {
+		if isNamed(v.Type(), pkgPath, name) {
+			return true
+		}
+		switch x := v.(type) {
+		case *ssa.FieldAddr:
+			v = x.X
+		case *ssa.Field:
+			v = x.X
+		case *ssa.UnOp:
+			if x.Op != token.MUL {
+				return false
+			}
+			v = x.X
+		default:
+			return false
+		}
+	}
+	return false
+}
+
+// origin returns the generic origin of an instantiated function (fn itself otherwise).
+func origin(fn *ssa.Function) *ssa.Function {
+	if fn != nil && fn.Origin() != nil {
+		return fn.Origin()
+	}
+	return fn
+}
+
+// origName: name of a function without instantiation suffix.
+func origName(fn *ssa.Function) string { return origin(fn).Name() }
